@@ -29,6 +29,9 @@ pub enum COp {
     Remove { id: u8 },
     SaveExt { k: u8, v: u8 },
     RemoveExt { k: u8 },
+    /// the synchronous `set_extension` ("persisted on the next flush()"): takes no gate lease, so
+    /// it can land while a flush is in flight
+    SetExt { k: u8, v: u8 },
     Flush,
     Get { id: u8 },
     QueryAge { age: u8 },
@@ -71,6 +74,7 @@ fn cop_strategy() -> impl Strategy<Value = COp> {
         4 => (0u8..4).prop_map(|id| COp::Remove { id }),
         1 => (0u8..2, any::<u8>()).prop_map(|(k, v)| COp::SaveExt { k, v }),
         1 => (0u8..2).prop_map(|k| COp::RemoveExt { k }),
+        2 => (0u8..2, any::<u8>()).prop_map(|(k, v)| COp::SetExt { k, v }),
         2 => Just(COp::Flush),
         2 => (0u8..4).prop_map(|id| COp::Get { id }),
         1 => (0u8..3).prop_map(|age| COp::QueryAge { age }),
@@ -137,6 +141,10 @@ pub async fn run_op(col: &Collection, op: &COp) -> Ret {
             Ok(()) => Ret::Unit,
             Err(e) => classify_err(e),
         },
+        COp::SetExt { k, v } => {
+            col.set_extension(format!("k{k}"), Fv::U64(*v as u64));
+            Ret::Unit
+        }
         COp::RemoveExt { k } => match col.remove_extension(&format!("k{k}")).await {
             Ok(old) => Ret::ExtOld(old),
             Err(e) => classify_err(e),
@@ -205,6 +213,10 @@ pub fn model_apply(st: &mut SeqState, idx: &IndexSet, op: &COp, real: &Ret) -> R
             st.exts.insert(format!("k{k}"), Fv::U64(*v as u64));
             Ret::Unit
         }
+        COp::SetExt { k, v } => {
+            st.exts.insert(format!("k{k}"), Fv::U64(*v as u64));
+            Ret::Unit
+        }
         COp::RemoveExt { k } => Ret::ExtOld(st.exts.remove(&format!("k{k}"))),
         COp::Flush => Ret::Unit,
         COp::Get { .. } | COp::QueryAge { .. } => Ret::Unit,
@@ -239,7 +251,10 @@ fn permutations(n: usize) -> Vec<Vec<usize>> {
     out
 }
 
+#[derive(Clone)]
 pub struct RunOut {
+    /// the backend as it is after a flush issued when every call had returned (fault-free runs)
+    pub final_snap: Option<BTreeMap<String, Vec<u8>>>,
     pub rets: Vec<Ret>,
     /// (invocation step, response step) of each op
     pub span: Vec<(u64, u64)>,
@@ -353,7 +368,7 @@ pub fn execute_with(case: &Case, ch: &mut Chooser, fail_release: Option<u64>, cr
                 }
                 let rets = acked.iter().map(|r| r.clone().unwrap_or(Ret::Unit)).collect();
                 let steps = step.load(Ordering::SeqCst);
-                return Ok((RunOut { rets, span: vec![], fin: SeqState::default(), flush_snaps: vec![], steps, interleaved, crash_snap: Some(snap), acked, started, poisoned: false }, pre));
+                return Ok((RunOut { final_snap: None, rets, span: vec![], fin: SeqState::default(), flush_snaps: vec![], steps, interleaved, crash_snap: Some(snap), acked, started, poisoned: false }, pre));
             }
             let c = ch.choose(p.len());
             let s = step.fetch_add(1, Ordering::SeqCst) + 1;
@@ -388,7 +403,7 @@ pub fn execute_with(case: &Case, ch: &mut Chooser, fail_release: Option<u64>, cr
             let resp = resp_step.lock().unwrap().clone();
             let span = (0..n).map(|i| (inv_step[i], resp[i])).collect();
             let acked = rets.iter().cloned().map(Some).collect();
-            return Ok((RunOut { rets, span, fin: SeqState::default(), flush_snaps: vec![], steps: step.load(Ordering::SeqCst), interleaved, crash_snap: Some(snap), acked, started: vec![true; n], poisoned: true }, pre));
+            return Ok((RunOut { final_snap: None, rets, span, fin: SeqState::default(), flush_snaps: vec![], steps: step.load(Ordering::SeqCst), interleaved, crash_snap: Some(snap), acked, started: vec![true; n], poisoned: true }, pre));
         }
         let mut fin = SeqState::default();
         for id in col.ids() {
@@ -414,7 +429,13 @@ pub fn execute_with(case: &Case, ch: &mut Chooser, fail_release: Option<u64>, cr
         let flush_snaps = snaps.lock().unwrap().clone();
         let acked = rets.iter().cloned().map(Some).collect();
         let poisoned = col.is_poisoned();
-        Ok((RunOut { rets, span, fin, flush_snaps, steps: step.load(Ordering::SeqCst), interleaved, crash_snap: None, acked, started: vec![true; n], poisoned }, pre))
+        // a flush issued now - every call has returned - must persist the whole effect
+        let mut final_snap = None;
+        if !poisoned && fail_release.is_none() {
+            col.flush(anda_db::unix_ms()).await.map_err(|e| format!("the flush after the run failed: {e}"))?;
+            final_snap = Some(vf_core::store::dump_store(mem.as_ref()).await);
+        }
+        Ok((RunOut { final_snap, rets, span, fin, flush_snaps, steps: step.load(Ordering::SeqCst), interleaved, crash_snap: None, acked, started: vec![true; n], poisoned }, pre))
     })
 }
 
@@ -452,8 +473,240 @@ pub fn linearize(case: &Case, pre: &SeqState, out: &RunOut) -> Vec<(Vec<usize>, 
     good
 }
 
+/// Signature of the second listed finding of the parallel runs.
+pub const SIG_PAR_SPURIOUS: &str = "parallel: a writer is refused for a uniqueness conflict with a value that an overlapping writer holds only transiently (that writer is itself refused, or has not committed)";
+
+fn unique_values(d: &MDoc) -> Vec<String> {
+    let mut v = vec![];
+    for index in [&["name"][..], &["ukeys"][..]] {
+        for k in derive_keys(d, index) {
+            v.push(format!("{}={k:?}", index[0]));
+        }
+    }
+    v
+}
+
+/// The unique values operation `i` tries to hold (adds: its document; updates: the merged document
+/// over the pre-existing one).
+fn attempted_unique_values(case: &Case, pre: &SeqState, i: usize) -> Vec<String> {
+    match &case.ops[i] {
+        COp::Add(spec) => unique_values(&spec.fields()),
+        COp::Update { id, spec, mask } => match pre.docs.get(&(*id as u64 + 1)) {
+            Some(old) => unique_values(&merged(old, spec, *mask).0),
+            None => vec![],
+        },
+        _ => vec![],
+    }
+}
+
+/// Like `linearize`, except that a `Conflict` return the order does not produce is accepted (as an
+/// operation without effect) when another operation that overlaps it in real time tries to hold one
+/// of the same unique values - the listed finding SIG_PAR_SPURIOUS. Used only to ATTRIBUTE a failure
+/// of the strict search.
+pub fn linearize_allowing_transient_conflicts(case: &Case, pre: &SeqState, out: &RunOut) -> bool {
+    let idx = idx_c05();
+    let muts: Vec<usize> = (0..case.ops.len()).filter(|i| is_mutation(&case.ops[*i])).collect();
+    let overlap = |a: usize, b: usize| out.span[a].0 < out.span[b].1 && out.span[b].0 < out.span[a].1;
+    let transient = |i: usize| {
+        let mine = attempted_unique_values(case, pre, i);
+        (0..case.ops.len()).any(|j| j != i && overlap(i, j) && attempted_unique_values(case, pre, j).iter().any(|k| mine.contains(k)))
+    };
+    'perm: for perm in permutations(muts.len()) {
+        let order: Vec<usize> = perm.iter().map(|p| muts[*p]).collect();
+        for (pa, a) in order.iter().enumerate() {
+            for b in order.iter().skip(pa + 1) {
+                if out.span[*b].1 < out.span[*a].0 && doc_of(&case.ops[*a]).is_some() && doc_of(&case.ops[*a]) == doc_of(&case.ops[*b]) {
+                    continue 'perm;
+                }
+            }
+        }
+        let mut st = pre.clone();
+        for i in &order {
+            let before = st.clone();
+            let want = model_apply(&mut st, &idx, &case.ops[*i], &out.rets[*i]);
+            if want != out.rets[*i] {
+                if out.rets[*i] == Ret::Conflict && matches!(want, Ret::AddOk(_) | Ret::Updated(_)) && transient(*i) {
+                    st = before;
+                    continue;
+                }
+                continue 'perm;
+            }
+        }
+        if st == out.fin {
+            return true;
+        }
+    }
+    false
+}
+
 pub fn check(case: &Case, ch: &mut Chooser, ctx: &mut CaseCtx) -> Result<(), String> {
     let (out, pre) = execute(case, ch, None)?;
+    judge(case, &out, &pre, ctx)
+}
+
+/// The operations of `case` on a multi-threaded runtime (one worker per operation), released
+/// together by a barrier, over a plain in-memory store: real parallelism instead of an owned
+/// schedule. Invocation / response order is taken from a shared logical clock.
+pub fn execute_parallel(case: &Case) -> Result<(RunOut, SeqState), String> {
+    let n = case.ops.len();
+    let rt = tokio::runtime::Builder::new_multi_thread().worker_threads(n.max(2)).enable_all().build().map_err(|e| e.to_string())?;
+    rt.block_on(async {
+        let mem = Arc::new(InMemory::new());
+        let store: Arc<dyn ObjectStore> = mem.clone();
+        let idx = idx_c05();
+        let db = connect(store, false).await.map_err(|e| format!("connect: {e}"))?;
+        let col = open(&db, &idx).await.map_err(|e| format!("open: {e}"))?;
+        let mut pre = SeqState::default();
+        for spec in &case.pre {
+            let f = spec.fields();
+            if unique_conflict(&pre.docs, &idx, None, &f) {
+                continue;
+            }
+            let id = col.add(make_doc(&col, &f)?).await.map_err(|e| format!("pre add: {e}"))?;
+            pre.docs.insert(id, f);
+        }
+        col.flush(anda_db::unix_ms()).await.map_err(|e| format!("pre flush: {e}"))?;
+        let clock = Arc::new(AtomicU64::new(1));
+        let barrier = Arc::new(tokio::sync::Barrier::new(n));
+        let mut hs = vec![];
+        for op in case.ops.iter().cloned() {
+            let (col, clock, barrier) = (col.clone(), clock.clone(), barrier.clone());
+            hs.push(tokio::spawn(async move {
+                barrier.wait().await;
+                let inv = clock.fetch_add(1, Ordering::SeqCst);
+                let r = run_op(&col, &op).await;
+                let resp = clock.fetch_add(1, Ordering::SeqCst);
+                (r, inv, resp)
+            }));
+        }
+        let mut rets = vec![];
+        let mut span = vec![];
+        for h in hs {
+            let (r, inv, resp) = h.await.map_err(|e| format!("an operation task failed: {e}"))?;
+            rets.push(r);
+            span.push((inv, resp));
+        }
+        let acked: Vec<Option<Ret>> = rets.iter().cloned().map(Some).collect();
+        if col.is_poisoned() {
+            // reported by the caller (which knows the listed finding this can be)
+            return Ok((RunOut { final_snap: None, rets, span, fin: SeqState::default(), flush_snaps: vec![], steps: 0, interleaved: false, crash_snap: None, acked, started: vec![true; n], poisoned: true }, pre));
+        }
+        let mut fin = SeqState::default();
+        for id in col.ids() {
+            match col.get(id).await {
+                Ok(d) => {
+                    fin.docs.insert(id, doc_fields(&d));
+                }
+                Err(e) => return Err(format!("after the run document {id} is listed but unreadable: {e}")),
+            }
+        }
+        for k in 0..2u8 {
+            if let Some(v) = col.get_extension(&format!("k{k}")) {
+                fin.exts.insert(format!("k{k}"), v);
+            }
+        }
+        let index_err = check_indexes(&col, &fin.docs, &idx, "after the parallel run").await.err();
+        col.flush(anda_db::unix_ms()).await.map_err(|e| format!("the flush after the parallel run failed: {e}"))?;
+        let final_snap = Some(vf_core::store::dump_store(mem.as_ref()).await);
+        let mut out = RunOut { final_snap, rets, span, fin, flush_snaps: vec![], steps: 0, interleaved: false, crash_snap: None, acked, started: vec![true; n], poisoned: false };
+        if let Some(e) = index_err {
+            out.rets.push(Ret::OtherErr(format!("INDEX: {e}")));
+        }
+        Ok((out, pre))
+    })
+}
+
+/// Signature of the listed finding as it shows under real parallelism (same root cause as the
+/// listed C04 finding: a unique value is released before the release is final).
+pub const SIG_PAR_RELEASE: &str = "parallel: an update that is rejected (or cut) released a unique value of its document inside its index phase and a concurrent writer acquired it";
+
+/// Does the run match that finding? Some update that did NOT succeed would have dropped a unique
+/// value of its (pre-existing) document, and another operation that succeeded ended up holding it.
+pub fn rejected_update_released(case: &Case, pre: &SeqState, out: &RunOut) -> bool {
+    let uniq = |d: &MDoc| -> Vec<String> {
+        let mut v = vec![];
+        for index in [&["name"][..], &["ukeys"][..]] {
+            for k in derive_keys(d, index) {
+                v.push(format!("{}={k:?}", index[0]));
+            }
+        }
+        v
+    };
+    for (i, op) in case.ops.iter().enumerate() {
+        let COp::Update { id, spec, mask } = op else { continue };
+        if !matches!(out.rets.get(i), Some(Ret::Conflict) | Some(Ret::OtherErr(_))) {
+            continue;
+        }
+        let Some(old) = pre.docs.get(&(*id as u64 + 1)) else { continue };
+        let (new, _) = merged(old, spec, *mask);
+        let kept = uniq(&new);
+        let dropped: Vec<String> = uniq(old).into_iter().filter(|k| !kept.contains(k)).collect();
+        if dropped.is_empty() {
+            continue;
+        }
+        for (j, oj) in case.ops.iter().enumerate() {
+            if j == i {
+                continue;
+            }
+            let holds = match (oj, out.rets.get(j)) {
+                (COp::Add(spec), Some(Ret::AddOk(_))) => uniq(&spec.fields()),
+                (COp::Update { .. }, Some(Ret::Updated(doc))) => uniq(doc),
+                _ => vec![],
+            };
+            if holds.iter().any(|k| dropped.contains(k)) {
+                return true;
+            }
+        }
+    }
+    false
+}
+
+/// One parallel execution of `case` and its verdict.
+pub fn run_parallel_once(case: &Case, ctx: &mut CaseCtx) -> Result<(), String> {
+    let (mut out, pre) = execute_parallel(case)?;
+    let index_err = match out.rets.last() {
+        Some(Ret::OtherErr(e)) if e.starts_with("INDEX: ") && out.rets.len() == case.ops.len() + 1 => {
+            let e = e.clone();
+            out.rets.pop();
+            Some(e)
+        }
+        _ => None,
+    };
+    let verdict = if out.poisoned {
+        Err(format!("the handle is poisoned after a fault-free parallel run (returns {:?})", out.rets))
+    } else if let Some(e) = index_err {
+        Err(e)
+    } else {
+        judge(case, &out, &pre, ctx)
+    };
+    // the poisoned outcome of the same finding: a rejected update that rewrites a unique field could
+    // not restore what it had released because ANOTHER overlapping writer (successful or itself
+    // refused, on a document that may have been added in this very run) held it at that moment
+    let poisoned_by_rejected_update = out.poisoned && {
+        let overlap = |a: usize, b: usize| out.span[a].0 < out.span[b].1 && out.span[b].0 < out.span[a].1;
+        (0..case.ops.len()).any(|i| {
+            let rewrites_unique = match &case.ops[i] {
+                COp::Update { mask, .. } => crate::hist::FIELDS.iter().enumerate().any(|(b, f)| mask & (1 << b) != 0 && (*f == "name" || *f == "ukeys")),
+                _ => false,
+            };
+            rewrites_unique
+                && matches!(out.rets[i], Ret::Conflict | Ret::OtherErr(_))
+                && (0..case.ops.len()).any(|j| j != i && overlap(i, j) && matches!(case.ops[j], COp::Add(_) | COp::Update { .. }))
+        })
+    };
+    match verdict {
+        Ok(()) => Ok(()),
+        Err(e) if poisoned_by_rejected_update => ctx.fail_sig(SIG_PAR_RELEASE, e),
+        Err(e) if rejected_update_released(case, &pre, &out) => ctx.fail_sig(SIG_PAR_RELEASE, e),
+        Err(e) if !out.poisoned && e.starts_with("no sequential order") && linearize_allowing_transient_conflicts(case, &pre, &out) => ctx.fail_sig(SIG_PAR_SPURIOUS, e),
+        Err(e) => Err(e),
+    }
+}
+
+/// The oracle over one finished run (owned schedule or real parallelism).
+pub fn judge(case: &Case, out: &RunOut, pre: &SeqState, ctx: &mut CaseCtx) -> Result<(), String> {
+    let out = out.clone();
+    let pre = pre.clone();
     // no unexpected errors
     for (i, r) in out.rets.iter().enumerate() {
         if let Ret::OtherErr(e) = r {
@@ -518,6 +771,24 @@ pub fn check(case: &Case, ch: &mut Chooser, ctx: &mut CaseCtx) -> Result<(), Str
         }
         ctx.label("flush_snapshot_reopened");
     }
+    // a flush issued when every call had returned persists the whole effect ("persisted on the next
+    // flush()"): reopening the backend as it is then yields the final documents and extensions
+    if let Some(snap) = &out.final_snap {
+        let (rec, ix) = reopen_snapshot_parts(snap)?;
+        if let Some(e) = ix {
+            return Err(format!("after a flush issued when every call had returned: {e}"));
+        }
+        if rec.docs != out.fin.docs || rec.exts != out.fin.exts {
+            return Err(format!(
+                "a flush issued when every call had returned does not persist their effect: the live handle has documents {:?} / extensions {:?}, reopening the storage yields documents {:?} / extensions {:?}",
+                out.fin.docs.keys().collect::<Vec<_>>(),
+                out.fin.exts,
+                rec.docs.keys().collect::<Vec<_>>(),
+                rec.exts
+            ));
+        }
+        ctx.count("final_flush_reopened", 1);
+    }
     ctx.count("decision_points", out.steps);
     let share = {
         let docs: Vec<Option<u64>> = case.ops.iter().map(doc_of).collect();
@@ -562,6 +833,11 @@ pub fn reopen_snapshot_parts(snap: &BTreeMap<String, Vec<u8>>) -> Result<(SeqSta
             let d = col.get(id).await.map_err(|e| format!("flush snapshot: document {id} unreadable: {e}"))?;
             st.docs.insert(id, doc_fields(&d));
         }
+        for k in 0..2u8 {
+            if let Some(v) = col.get_extension(&format!("k{k}")) {
+                st.exts.insert(format!("k{k}"), v);
+            }
+        }
         let ix = check_indexes(&col, &st.docs, &idx, "flush snapshot reopened").await.err();
         Ok((st, ix))
     })
@@ -591,6 +867,8 @@ fn pair_shapes() -> Vec<Case> {
         (COp::SaveExt { k: 0, v: 1 }, COp::SaveExt { k: 0, v: 2 }),
         (COp::SaveExt { k: 0, v: 1 }, COp::Flush),
         (COp::SaveExt { k: 1, v: 3 }, COp::RemoveExt { k: 1 }),
+        (COp::SetExt { k: 0, v: 7 }, COp::Flush), // a synchronous extension write landing inside a flush
+        (COp::SetExt { k: 1, v: 7 }, COp::SaveExt { k: 0, v: 2 }),
         (upage(0, 5), COp::Get { id: 0 }),
         (COp::Remove { id: 1 }, COp::Get { id: 1 }),
         (up(0, 1, 0), COp::Remove { id: 1 }),  // take the name the removed document holds
@@ -614,7 +892,7 @@ pub fn run(r: &mut Runner) {
     let budget = r.tier.pick(4000usize, 100_000usize);
     r.sub_enum(
         "pairs_all_interleavings",
-        "17 fixed two-operation sets over a pre-populated, flushed collection (same-document update/update, update/remove, remove/remove, contended unique renames and adds, add / update / remove / extension racing flush, extension pairs, readers overlapping writers, taking a value whose holder is being removed), the three reader sets a second time on a reopened handle (cold read cache) with the reader's own backend reads as decision points: EVERY release order of their backend mutations (each parks before and after landing, plus a start park per op) is enumerated depth-first. Oracle: Wing-Gong search - some order of the mutating ops, consistent with real-time order per document, reproduces every return value (distinct ids, updates built on earlier ones, exactly one of concurrent removes returns the document, NotFound / AlreadyExists where the order says so) and the final documents and extensions; all indexes agree with the final documents; reads return whole documents some call wrote; the storage as it was when a concurrent flush returned reopens to the state after a prefix of such an order. Non-trivial = the two ops overlapped in real time (both invoked before either responded) and they touch the same document or the same collection-level state",
+        "19 fixed two-operation sets over a pre-populated, flushed collection (same-document update/update, update/remove, remove/remove, contended unique renames and adds, add / update / remove / extension racing flush, extension pairs, readers overlapping writers, taking a value whose holder is being removed), the three reader sets a second time on a reopened handle (cold read cache) with the reader's own backend reads as decision points: EVERY release order of their backend mutations (each parks before and after landing, plus a start park per op) is enumerated depth-first. Oracle: Wing-Gong search - some order of the mutating ops, consistent with real-time order per document, reproduces every return value (distinct ids, updates built on earlier ones, exactly one of concurrent removes returns the document, NotFound / AlreadyExists where the order says so) and the final documents and extensions; all indexes agree with the final documents; reads return whole documents some call wrote; the storage as it was when a concurrent flush returned reopens to the state after a prefix of such an order. Non-trivial = the two ops overlapped in real time (both invoked before either responded) and they touch the same document or the same collection-level state",
         true,
         pair_shapes(),
         move |case, ctx| {
@@ -651,5 +929,18 @@ pub fn run(r: &mut Runner) {
         (60_000, 1_500_000),
         || case_strategy(4),
         run_generated,
+    );
+    r.sub(
+        "parallel_sets_stress",
+        "the generated sets of 2-4 operations again, on a multi-threaded runtime (one worker per operation, all released by a barrier, plain in-memory store, no scheduler): real parallelism reaches interleavings INSIDE a synchronous section, which contain no backend call for the parking store to stop at; invocation / response order from a shared logical clock; same Wing-Gong oracle, indexes agree with the final documents, the handle is not poisoned. Not replayable step by step: a replay runs the case 50 times. Non-trivial = two operations overlapped in real time and touch the same document or the same collection-level state",
+        (6_000, 200_000),
+        || case_strategy(4),
+        |case, ctx| {
+            let repeats = if ctx.strict { 50 } else { 1 };
+            for _ in 0..repeats {
+                run_parallel_once(case, ctx)?;
+            }
+            Ok(())
+        },
     );
 }
